@@ -8,6 +8,8 @@ from engine import Engine, REPO
 from oracle import Oracle, hexs
 from nspec import strip_err, resort
 
+OUT = os.environ.get('VERIF_OUT', ROOT)      # evidence/replays go here (experiments against scratch trees set it so /verif/evidence always describes /repo)
+
 class Query:
     def __init__(self, name, module, func, params, bound, max_paths=400000, budget_s=None):
         self.name = name; self.module = module; self.func = func; self.params = params
@@ -115,7 +117,7 @@ class Runner:
             if hit:
                 lines.append('KNOWN-FINDING: property=%s %s' % (self.pid, hit[0].get('what', v['key'])))
             else:
-                d = os.path.join(ROOT, 'replays', self.pid); os.makedirs(d, exist_ok=True)
+                d = os.path.join(OUT, 'replays', self.pid); os.makedirs(d, exist_ok=True)
                 h = hashlib.sha1(v['key'].encode()).hexdigest()[:12]
                 path = os.path.join(d, h + '.json')
                 json.dump({'property': self.pid, 'key': v['key'], 'what': v['what'], 'replay': v['replay']}, open(path, 'w'), indent=1, ensure_ascii=False)
@@ -140,8 +142,8 @@ class Runner:
         cov.update(self.extra)
         ev = {'property_id': self.pid, 'tier': self.tier, 'seed': self.seed, 'level': level, 'coverage': cov,
               'assumptions': self.assumptions, 'wall_s': round(time.time() - self.t0, 2), 'violations': len(new)}
-        os.makedirs(os.path.join(ROOT, 'evidence'), exist_ok=True)
-        json.dump(ev, open(os.path.join(ROOT, 'evidence', self.pid + '.json'), 'w'), indent=1, ensure_ascii=False, default=str)
+        os.makedirs(os.path.join(OUT, 'evidence'), exist_ok=True)
+        json.dump(ev, open(os.path.join(OUT, 'evidence', self.pid + '.json'), 'w'), indent=1, ensure_ascii=False, default=str)
         for l in lines: print(l)
         if new:
             code = 1
